@@ -1,6 +1,6 @@
 (* Lemmas about Model/Regress.v over R: the mean of shifted data, shift invariance of CP_PLSR.fit / predict. *)
 From Coq Require Import List Arith Lia Bool Ring Reals Lra.
-From TLV Require Import Base.Shape Base.PyList Base.Tensor Base.BigSum Base.Ops Model.Base Proofs.BaseProofs Model.Regress Proofs.RegressProofs.
+From TLV Require Import Base.Shape Base.PyList Base.Tensor Base.BigSum Base.Ops Model.Base Proofs.BaseProofs Model.Regress Proofs.RegressProofs Proofs.RegressProofsPlsr.
 Import ListNotations.
 
 (* ordered-field part: the mean of shifted data *)
@@ -78,3 +78,66 @@ Proof.
 Qed.
 End FitR.
 End RealShift.
+
+(* unit norm of the loadings: over R with sqrtF = sqrt *)
+Section UnitNorm.
+Open Scope R_scope.
+Notation tgetR := (tget Rops).
+
+Lemma bigsum_R_nonneg n f : (forall i, 0 <= f i) -> 0 <= bigsum R 0 Rplus n f.
+Proof. intros H. induction n; cbn [bigsum]; [lra|]. specialize (H n). lra. Qed.
+
+Lemma sumsq_nonneg v : 0 <= sumsq Rops v.
+Proof. unfold sumsq, fsum_idx, sum_idx. apply bigsum_R_nonneg. intros i. apply Rle_0_sqr. Qed.
+
+Lemma sumsq_normalize v :
+  sumsq Rops (normalize Rops sqrt v) = sumsq Rops v * (/ sqrt (sumsq Rops v) * / sqrt (sumsq Rops v)).
+Proof.
+  unfold sumsq at 1. change (shape (normalize Rops sqrt v)) with (shape v).
+  rewrite (fsum_idx_ext Rops (shape v) _ (fun J => (tgetR v J * tgetR v J) * (/ sqrt (sumsq Rops v) * / sqrt (sumsq Rops v)))).
+  - unfold sumsq at 3. unfold fsum_idx, sum_idx.
+    exact (bigsum_scale_r R _ _ _ _ _ _ RTheory (prod (shape v)) _ (fun k => tgetR v (unravel (shape v) k) * tgetR v (unravel (shape v) k))).
+  - intros J HJ. unfold tget at 1 2. unfold normalize. rewrite get_tabulate by exact HJ.
+    fold (tgetR v J). unfold norm2. cbn [Rops fdiv fmul]. unfold Rdiv. ring.
+Qed.
+
+Theorem normalize_unit_pos v : 0 < sumsq Rops v -> sumsq Rops (normalize Rops sqrt v) = 1.
+Proof.
+  intros H. rewrite sumsq_normalize. set (S := sumsq Rops v) in *.
+  assert (Hs : 0 < sqrt S) by (apply sqrt_lt_R0; exact H).
+  rewrite <- (sqrt_sqrt S) at 1 by lra. field. lra.
+Qed.
+
+(* a normalised vector has unit norm unless it is the normalisation of the zero vector *)
+Theorem normalize_unit v : sumsq Rops (normalize Rops sqrt v) <> 0 -> sumsq Rops (normalize Rops sqrt v) = 1.
+Proof.
+  intros H. destruct (Req_dec (sumsq Rops v) 0) as [E|E].
+  - exfalso. apply H. rewrite sumsq_normalize, E. ring.
+  - apply normalize_unit_pos. pose proof (sumsq_nonneg v). lra.
+Qed.
+
+End UnitNorm.
+
+Theorem plsr_unit_norm init ne_solve tol n_iter ncomp X Y c :
+  In c (comps (fit_cp Rops sqrt init ne_solve tol n_iter ncomp X Y)) ->
+  (forall l, In l (c_load c) -> sumsq Rops l <> 0%R -> sumsq Rops l = 1%R) /\
+  (sumsq Rops (c_yload c) <> 0%R -> sumsq Rops (c_yload c) = 1%R).
+Proof.
+  intros Hin. destruct (plsr_loadings_normalized Rops sqrt init ne_solve tol n_iter ncomp X Y c Hin) as [H1 H2].
+  split.
+  - intros l Hl. rewrite Forall_forall in H1. destruct (H1 l Hl) as [v ->]. apply normalize_unit.
+  - destruct H2 as [v ->]. apply normalize_unit.
+Qed.
+
+(* shift invariance for the concrete fit (instance of plsr_shift_invariance) *)
+Theorem plsr_cp_shift_invariance (init : tensor R -> list (tensor R)) (ne_solve : list (list R) -> list R -> list R)
+  (tol : R) (n_iter ncomp : nat) (X Y c d : tensor R) (n : nat) (sx : list nat) (m : nat) :
+  shape X = n :: sx -> shape Y = [n; m] -> 0 < n ->
+  let p := fit_cp Rops sqrt init ne_solve tol n_iter ncomp X Y in
+  let p' := fit_cp Rops sqrt init ne_solve tol n_iter ncomp (shift Rops X c) (shift Rops Y d) in
+  comps p' = comps p /\ loadings p' = loadings p /\ fitted_scores p' = fitted_scores p /\
+  forall Xn i o, sshape Xn = sx -> i < nsamp Xn -> o < m ->
+    tget Rops (fit_predict Rops p' (shift Rops Xn c)) [i; o] = (tget Rops (fit_predict Rops p Xn) [i; o] + tget Rops d [o])%R.
+Proof.
+  exact (plsr_shift_invariance (inner_cp Rops sqrt init tol n_iter) (lstsq_ne Rops ne_solve) ncomp X Y c d n sx m).
+Qed.
